@@ -50,6 +50,27 @@ theorem filterLoop_none_snd (m : Elem → Bool × List Call) (ax : List Elem) (n
       · simp [ht, hm, ih]
     · simp [ht, ih]
 
+/-- with a limit the loop makes a prefix of the calls it makes without one (it stops early, it never calls more) -/
+theorem filterLoop_snd_prefix (m : Elem → Bool × List Call) (limit : Option Nat) (ax : List Elem) :
+    ∀ n n', (filterLoop m limit ax n).2 <+: (filterLoop m none ax n').2 := by
+  induction ax with
+  | nil => intro n n'; simp [filterLoop]
+  | cons e rest ih =>
+    intro n n'
+    have hnone : ∀ k, limitReached none k = false := fun _ => rfl
+    unfold filterLoop
+    by_cases ht : e.truthy = true
+    · by_cases hm : (m e).1 = true
+      · by_cases hr : limitReached limit (n + 1) = true
+        · simp only [ht, hm, hr, hnone, if_true, Bool.false_eq_true, if_false]
+          exact List.prefix_append _ _
+        · simp only [ht, hm, hr, hnone, if_true, Bool.false_eq_true, if_false]
+          exact (List.prefix_append_right_inj _).mpr (ih _ _)
+      · simp only [ht, hm, if_true, Bool.false_eq_true, if_false]
+        exact (List.prefix_append_right_inj _).mpr (ih _ _)
+    · simp only [ht, Bool.false_eq_true, if_false]
+      exact ih _ _
+
 /-! ### rules from criteria -/
 
 theorem makeRules_eq (c : Crit) : makeRules c = c.atoms.flatMap Atom.rules := by
